@@ -328,6 +328,7 @@ package raft
 //@   ensures [I11] r.operationManager != nil && r.operationManager.leaderLease != nil && r.operationManager.pendingReplicated != nil && r.operationManager.pendingReadOnly != nil && (forall o *Operation :: o in r.operationManager.pendingReadOnly ==> o != nil)
 //@   ensures [manager] r.state == old(r.state) ==> r.operationManager == old(r.operationManager)
 //@   ensures [tables-empty-on-stepdown] old(r.state) == Leader && r.state != Leader ==> (forall k uint64 :: !(k in r.operationManager.pendingReplicated)) && (forall o *Operation :: !(o in r.operationManager.pendingReadOnly))
+//@   ensures [tables-kept] r.state == old(r.state) ==> (forall k uint64 :: (k in r.operationManager.pendingReplicated) == old(k in r.operationManager.pendingReplicated)) && (forall o *Operation :: (o in r.operationManager.pendingReadOnly) == old(o in r.operationManager.pendingReadOnly))
 //@   ensures [answered-mono] forall c int :: old(answered[c]) ==> answered[c]
 //@   ensures [clock] now >= old(now)
 //@   ensures [snapshot] r.snapshot == nil || (r.snapshot == old(r.snapshot) && sfWriter[r.snapshot] == old(sfWriter[r.snapshot]) && sfPublished[r.snapshot] == old(sfPublished[r.snapshot]))
@@ -675,6 +676,7 @@ package raft
 //@   let X = request.LastIncludedIndex
 //@   let T = request.LastIncludedTerm
 //@   assume [A-ES] request.Term == r.currentTerm ==> r.state != Leader
+//@   assume [A-LM] request.Term >= r.currentTerm && X <= r.commitIndex && inLog(X) ==> Lterm[X] == T
 //@   ensures [IS.shutdown] err != nil ==> Llast == old(Llast) && Lfirst == old(Lfirst) && r.commitIndex == old(r.commitIndex) && r.lastApplied == old(r.lastApplied) && r.currentTerm == old(r.currentTerm) && r.votedFor == old(r.votedFor)
 //@   ensures [IS.stale-term] err == nil && request.Term < entry(r.currentTerm) && old(r.state) != Shutdown ==> response.Term >= request.Term
 //@   at call r.snapshotStorage.NewSnapshotFile assert [IS.something-new] X > r.lastIncludedIndex && X > r.lastApplied && request.Term >= r.currentTerm
